@@ -135,6 +135,12 @@ theorem C01_deps_sensitive (C : Congruence V) (R : Rules) (P : Expr → Expr →
     Equiv C (optimizeUntil R fuel stage e).expr e :=
   optimizeUntilT_sound C.toSem R P hR fuel stage e ht
 
+/-- `collect_dependents(expr)` only records real (operand, consumer) pairs; what can make the map the
+    rules see *untruthful about the current tree* is staleness (consumers that were rewritten away) and
+    the bandaid appends — which is why `RulesSound` quantifies over every map. -/
+theorem C01_collectDependents_truthful (e : Expr) : DepsTruthful (collectDependents e) :=
+  collectLoop_truthful _ _ _ _ (fun _ _ h => by cases h)
+
 /-- a firing is only ever recorded for a rule call that really happened with these arguments -/
 theorem C01_trace_monotone (R : Rules) (fuel : Nat) (e : Expr) (s : SState) (f : Firing)
     (hf : f ∈ s.trace) : f ∈ (simplifyOnce R fuel e s).2.trace :=
